@@ -209,11 +209,43 @@ def run_real(desc):
     def ex_arg():
         return make_extras(extras) if extras or desc.get("empty_dict") else None
 
-    # 1. array
+    def kw():
+        """the extra_agents keyword: left out altogether when there is nothing to pass and the description
+        says so (the builders' own default is then used)"""
+        ex = ex_arg()
+        return {} if ex is None and desc.get("omit_kw") else {"extra_agents": ex}
+
+    # 0. earlier builds in the same process (a history: the measured builds must not depend on them, nor
+    #    change them): another layout over the same registry through the three layout builders, defaults only
+    warm = []
+    if desc.get("warm"):
+        wr, wc, wcells = desc["warm"]["rows"], desc["warm"]["cols"], desc["warm"]["cells"]
+        try:
+            warm.append(Sim.build_sim_from_array(np.array(wcells, dtype=str).reshape(wr, wc), dict(registry)))
+            wgrid = Grid(wr, wc)
+            wgrid.reset()
+            for ch, n, _, (r, c) in layout_listing(wcells, wc, reg):
+                a = registry[ch](n)
+                a.initial_position = np.array([r, c])
+                wgrid.place(a, (r, c))
+            warm.append(Sim.build_sim_from_grid(wgrid))
+        except Exception:  # noqa: BLE001
+            warm = []                                       # not a legal warm-up layout: no history then
+    warm_before = [sim_canon(w) for w in warm]
+
+    # 1. array (same contents whatever the memory layout of the array handed in)
+    arr = np.array(cells, dtype=str).reshape(rows, cols)
+    mem = desc.get("mem", "C")
+    if mem == "F":
+        arr = np.asfortranarray(arr)
+    elif mem == "T":
+        arr = np.ascontiguousarray(arr.T).T                 # a transposed view
+    elif mem == "neg":
+        arr = np.ascontiguousarray(arr[::-1, ::-1])[::-1, ::-1]   # a view with negative strides
+    assert arr.shape == (rows, cols) and [str(x) for row in arr for x in row] == [str(x) for x in cells]
     sim_a = None
     try:
-        sim_a = Sim.build_sim_from_array(np.array(cells, dtype=str).reshape(rows, cols), dict(registry),
-                                         extra_agents=ex_arg())
+        sim_a = Sim.build_sim_from_array(arr, dict(registry), **kw())
         out_a = sim_canon(sim_a)
     except Exception as ex:  # noqa: BLE001
         out_a = ["err", err_kind(ex, "array")]
@@ -223,7 +255,7 @@ def run_real(desc):
         with os.fdopen(fd, "w", newline="") as f:       # default encoding: the one the builder reads with
             f.write(text)
         try:
-            out_f = sim_canon(Sim.build_sim_from_file(path, dict(registry), extra_agents=ex_arg()))
+            out_f = sim_canon(Sim.build_sim_from_file(path, dict(registry), **kw()))
         except Exception as ex:  # noqa: BLE001
             out_f = ["err", err_kind(ex, "file")]
     finally:
@@ -242,9 +274,12 @@ def run_real(desc):
             cell = grid[r, c]
             grid_canon.append("n" if cell is None else [agent_canon(k, a) for k, a in cell.items()])
     try:
-        out_g = sim_canon(Sim.build_sim_from_grid(grid, extra_agents=ex_arg()))
+        out_g = sim_canon(Sim.build_sim_from_grid(grid, **kw()))
     except Exception as ex:  # noqa: BLE001
         out_g = ["err", err_kind(ex, "grid")]
+    if [sim_canon(w) for w in warm] != warm_before:
+        # a later build changed a simulation built earlier: reported as a failure of the builder used last
+        out_g = ["err", "earlier-build-changed"]
     # 4. direct: the prescribed agents, explicitly
     explicit = {}
     for ch, n, _, (r, c) in listing:
@@ -318,6 +353,11 @@ class BuildersProp(core.Prop):
                 "layout-agents:" + ("0" if n_layout == 0 else "1-3" if n_layout <= 3 else "4+")]
         if any(cells.count(ch) > 1 for ch in regch):
             tags.append("repeated-char")
+        tags.append("array-memory:" + desc.get("mem", "C"))
+        if desc.get("warm"):
+            tags.append("after-earlier-builds")
+        if desc.get("omit_kw"):
+            tags.append("extra_agents-omitted")
         layout_ids = {(ch, n) for ch, n, _, _ in layout_listing(cells, cols, reg)}
         if any(e["id"][0] == "g" and (e["id"][1], e["id"][2]) in layout_ids for e in desc["extras"]):
             tags.append("id-clash")
@@ -342,9 +382,15 @@ class BuildersProp(core.Prop):
         # exhaustive smallest scopes
         shapes = [(1, 1), (1, 2), (2, 1), (2, 2)] if quick else [(1, 1), (1, 2), (2, 1), (2, 2), (1, 3), (3, 1)]
         for rows, cols in shapes:
-            for cells in itertools.product("AB_X", repeat=rows * cols):
-                yield self.case_from_desc({"rows": rows, "cols": cols, "cells": list(cells), "reg": reg2,
-                                           "extras": [], "text": "plain" if (rows + cols) % 2 else "nl"})
+            for i, cells in enumerate(itertools.product("AB_X", repeat=rows * cols)):
+                d = {"rows": rows, "cols": cols, "cells": list(cells), "reg": reg2,
+                     "extras": [], "text": "plain" if (rows + cols) % 2 else "nl"}
+                yield self.case_from_desc(d)
+                if rows * cols > 1:
+                    # the same layout from an array with another memory layout, after an earlier build of the
+                    # reversed layout, with the builders' default for extra_agents
+                    yield self.case_from_desc(dict(d, mem=("F", "T", "neg")[i % 3], omit_kw=True,
+                                                   warm={"rows": rows, "cols": cols, "cells": list(cells)[::-1]}))
         if not quick:
             for cells in itertools.product("A_X", repeat=6):
                 for rows, cols in ((2, 3), (3, 2)):
@@ -384,6 +430,9 @@ class BuildersProp(core.Prop):
                                for e in desc["extras"]])
         if desc.get("text", "plain") != "plain":
             yield dict(desc, text="plain")
+        for k in ("warm", "mem", "omit_kw"):
+            if desc.get(k):
+                yield {kk: vv for kk, vv in desc.items() if kk != k}
         for i in range(len(desc["extras"])):
             yield dict(desc, extras=desc["extras"][:i] + desc["extras"][i + 1:])
         for r in range(rows - 1, -1, -1):
@@ -479,4 +528,13 @@ def gen_desc(rng):
             "npseed": rng.randrange(2 ** 31)}
     if not extras and rng.random() < 0.3:
         desc["empty_dict"] = True                              # extra_agents={} instead of None
+    elif not extras and rng.random() < 0.6:
+        desc["omit_kw"] = True                                 # the keyword is not passed at all
+    m = rng.random()
+    if m < 0.45:
+        desc["mem"] = rng.choice(("F", "T", "neg"))            # same contents, another memory layout
+    if rng.random() < 0.4:                                     # earlier builds of another layout in this process
+        wr, wc = rng.randint(1, 5), rng.randint(1, 6)
+        desc["warm"] = {"rows": wr, "cols": wc,
+                        "cells": [rng.choice(regch) if rng.random() < 0.5 else "_" for _ in range(wr * wc)]}
     return desc
